@@ -10,6 +10,7 @@
 -/
 import Props.Defs
 import Proofs.Chain
+import Proofs.Extra
 namespace Coma.Props
 open Coma Coma.Spec
 
@@ -108,5 +109,24 @@ theorem C14_strand_signed_counterexample :
       ⟨⟨⟨1, 0⟩, ⟨1, 0⟩, 0, 0⟩, ⟨⟨2, 5000⟩, ⟨2, 5000⟩, 0, 0⟩⟩
       ⟨⟨⟨3, 15000⟩, ⟨3, 15000⟩, 0, 0⟩, ⟨⟨4, 20000⟩, ⟨4, 20000⟩, 0, 0⟩⟩ = some 0 := by
   decide +kernel
+
+end Coma.Props
+
+namespace Coma.Props
+open Coma Coma.Spec
+
+/-- C14 for the REAL chainer (`chainSegs` = the DP instantiated with the segment score and the
+    real sequentiality scorer): the non-empty part of the result is an order-respecting selection
+    of the key-ordered non-empty input segments whose total (segment scores + join scores) is
+    finite and at least the total of EVERY non-empty order-respecting selection -/
+theorem C14_chainSegs_optimal (P : Params) (C : ChainCfg) (segs out : List Seg) (ne : List (Seg × Ends))
+    (h : chainSegs P C segs = some out)
+    (hne : withEnds? (segs.filter (fun s => !s.isEmpty)) = some ne) (hnn : ne ≠ []) :
+    ∃ sel : List (Seg × Ends), sel.Sublist (isort (fun (x : Seg × Ends) => x.2.key) ne) ∧ sel ≠ [] ∧
+      out = sel.map (·.1) ++ segs.filter Seg.isEmpty ∧
+      ∃ tot : Rat, Coma.Proofs.segChainTotal P C sel = some tot ∧
+        ∀ c : List (Seg × Ends), c.Sublist (isort (fun (x : Seg × Ends) => x.2.key) ne) → c ≠ [] →
+          leOpt (Coma.Proofs.segChainTotal P C c) tot :=
+  Coma.Proofs.chainSegs_optimal P C segs out ne h hne hnn
 
 end Coma.Props
